@@ -163,7 +163,7 @@ func runC04(c *Ctx) {
 
 	// --- action-guard
 	acts := c.actionMethods(ea)
-	c.floor("action-guard", "action methods guarded by CheckAction", len(acts), 8)
+	c.floor("action-guard", "action methods guarded by CheckAction", len(acts), 6)
 	guardOf := map[string][]string{} // const -> methods
 	for _, am := range acts {
 		c.checkRefusal("action-guard", am.Fn, 0, actionGuardAtom, "")
@@ -218,7 +218,7 @@ func runC04(c *Ctx) {
 			nPhase++
 		}
 	}
-	c.floor("operation-guard", "phase-guarded operations", nPhase, 6)
+	c.floor("operation-guard", "phase-guarded operations", nPhase, 4)
 
 	// --- wrapper-target: game.M() == GetCurrentPlayer().M(args...)
 	for _, m := range wrappers {
@@ -261,7 +261,7 @@ func runC04(c *Ctx) {
 		}
 		c.check(ok, "wrapper-target", fnKey(g), p.FnPos(g), "dispatches to GetCurrentPlayer()."+m+" with its arguments and returns its result", "wrapper does not dispatch to the current player's "+m+": "+why)
 	}
-	c.floor("wrapper-target", "action wrappers", len(wrappers), 8)
+	c.floor("wrapper-target", "action wrappers", len(wrappers), 6)
 
 	// --- offer-agreement
 	offered, _, avail := c.offeredActions(ea)
@@ -292,7 +292,7 @@ func runC04(c *Ctx) {
 				"action name is in the offered vocabulary",
 				fmt.Sprintf("action name %q is never offered by the engine nor added by the table layer (typo or stale name)", u.Const))
 		}
-		c.floor("offer-agreement", "action-name uses", n, 10)
+		c.floor("offer-agreement", "action-name uses", n, 5)
 		for a, ms := range guardOf {
 			if !offered[a] {
 				c.Notes = append(c.Notes, fmt.Sprintf("guard constant %q of %v is never offered by the engine: method never enabled (C05/C12 obligations for it are vacuous)", a, ms))
@@ -387,7 +387,7 @@ func runNoStaleOffers(c *Ctx, ea *engineAnchors, rule string, only string) {
 		if !waits {
 			continue
 		}
-		for callee := range p.Index().Info[h].TCalls {
+		for callee := range tcallsOf(p, h) {
 			if callee.Name() == "SetCurrentPlayer" {
 				actionWait = ev
 			}
@@ -518,9 +518,73 @@ func (c *Ctx) allowActionConsts() map[string]bool {
 					continue
 				}
 				for _, a := range cc.Args {
-					if s, ok := constString(a); ok {
+					for _, s := range c.stringConstsReaching(a, 0) {
 						out[s] = true
 					}
+				}
+			}
+		}
+	}
+	return out
+}
+
+// stringConstsReaching: the string constants v can be: v itself, the edges of a phi, or - when v
+// is a parameter of its function (also of a closure's parent, a captured name) - what the
+// module's call sites pass for it.
+func (c *Ctx) stringConstsReaching(v ssa.Value, depth int) []string {
+	if depth > 3 {
+		return nil
+	}
+	if s, ok := constString(v); ok {
+		return []string{s}
+	}
+	var out []string
+	switch x := v.(type) {
+	case *ssa.Phi:
+		for _, e := range x.Edges {
+			out = append(out, c.stringConstsReaching(e, depth+1)...)
+		}
+	case *ssa.Parameter:
+		fn := x.Parent()
+		ix := c.P.Index()
+		for i, prm := range fn.Params {
+			if prm != x {
+				continue
+			}
+			for _, cl := range ix.Callers(fn) {
+				for _, site := range ix.CallSites(cl, fn) {
+					if cc := site.Common(); cc.StaticCallee() == fn && i < len(cc.Args) {
+						out = append(out, c.stringConstsReaching(cc.Args[i], depth+1)...)
+					}
+				}
+			}
+		}
+	case *ssa.FreeVar:
+		// captured by a closure: the binding in the function that made the closure
+		fn := x.Parent()
+		for i, fv := range fn.FreeVars {
+			if fv != x || fn.Parent() == nil {
+				continue
+			}
+			for _, b := range fn.Parent().Blocks {
+				for _, in := range b.Instrs {
+					if mc, ok := in.(*ssa.MakeClosure); ok && mc.Fn == ssa.Value(fn) && i < len(mc.Bindings) {
+						out = append(out, c.stringConstsReaching(mc.Bindings[i], depth+1)...)
+					}
+				}
+			}
+		}
+	case *ssa.UnOp:
+		// a load of a captured variable's cell
+		if x.Op == token.MUL {
+			out = append(out, c.stringConstsReaching(x.X, depth+1)...)
+		}
+	case *ssa.Alloc:
+		// a local cell: whatever is stored into it
+		if refs := x.Referrers(); refs != nil {
+			for _, r := range *refs {
+				if st, ok := r.(*ssa.Store); ok && st.Addr == ssa.Value(x) {
+					out = append(out, c.stringConstsReaching(st.Val, depth+1)...)
 				}
 			}
 		}
@@ -640,7 +704,7 @@ func runC04CurrentSeat(c *Ctx, ea *engineAnchors) {
 			}
 		}
 	}
-	c.floor("current-seat-only", "stores to AllowedActions", n, 3)
+	c.floor("current-seat-only", "stores to AllowedActions", n, 2)
 	// callers of AllowActions pass GetAllowedActions(p) for the same p
 	allow := p.Func("pokerface", ea.playerImpl, "AllowActions")
 	if allow != nil {
@@ -861,7 +925,7 @@ func runC04HelperGuards(c *Ctx, ea *engineAnchors) {
 	}
 	n := 0
 	for _, fn := range p.MethodsOf("pokerface", ea.playerImpl) {
-		if fn == mover || fn.Blocks == nil {
+		if fn == mover || fn.Blocks == nil || c.moverFamily(mover)[fn] {
 			continue
 		}
 		// action names this function records as done
